@@ -64,6 +64,16 @@ def run_property(prop, tier, seed, replay_file=None):
             # the standing non-vacuity demonstration failed: the check cannot be trusted
             raise E.ToolError("vacuity variant %s of %s is not violated in the model" % (mut or drop_fixes, name))
 
+    # ---- the command channel at the grain of single ring operations: safety and liveness under fairness
+    chan_model = None
+    if prop in ("C01", "C04", "C07", "C08", "C09"):
+        chan_model = E.channel_model(tier, fixes)
+        tot["states"] += chan_model["states"]
+        tot["transitions"] += chan_model["transitions"]
+        E.log("Channel.tla: %d distinct states, invariants %s, liveness %s hold; pinned variants violate %s" % (
+            chan_model["states"], ",".join(chan_model["invariants"]), ",".join(chan_model["liveness_under_fairness"]),
+            ",".join(v["expected"] for v in chan_model["pinned_variants"])))
+
     for entry in insts:
         name = entry if isinstance(entry, str) else entry[0]
         over = {} if isinstance(entry, str) else entry[1]
@@ -257,6 +267,11 @@ def run_property(prop, tier, seed, replay_file=None):
         model_counterexamples_replayed=tot["model_cex"], vacuity_selftest=vacuity,
         known_finding_instances=len(all_listed), model_switches=fixes,
         exhaustive=all(not i["timed_out"] for i in per_instance),
+        channel_model=chan_model,
+        channel_conformance=dict(
+            what="hook events (ring pushes, parks, refusals, drains, receiver removals, batch composition) of the steered runs folded through "
+                 "spec/TraceChan.tla, the trace form of spec/Channel.tla: every event must be an enabled step of the channel model",
+            runs=E.CHAN["runs"], events=E.CHAN["events"], drift=len(E.CHAN["drift"]), drift_samples=E.CHAN["drift"][:5]),
     )
     write_evidence(prop, tier, seed, plan.get("level", "model_checking"), coverage, time.time() - t0, len(all_new),
                    ["steered executions are sequentially consistent (one actor at a time): no weak-memory behaviour is explored",
